@@ -19,7 +19,7 @@ from .sym import SBool, SInt, SReal, And, Or, Not, Implies, eq, is_sym
 from .values import (Unsupported, PyExc, MISSING, Class, Instance, EnumMember, SEnum, Function, Builtin,
                      BoundMethod, Module, Coroutine, BytesVal, ABytes, SStr, DequeVal, SetVal, Opaque,
                      all_dc_fields)
-from .interp import Interp, Path, PathEnd
+from .interp import Interp, Path, PathEnd, LoopCut
 
 
 class Outcome:
@@ -176,6 +176,10 @@ class Harness:
             return Outcome(value=v)
         except PyExc as e:
             return self._outcome_exc(e)
+        except LoopCut:
+            o = Outcome(value=None)
+            o.cut = True
+            return o
 
     def method(self, obj, name, *args, **kwargs) -> Outcome:
         try:
